@@ -1098,6 +1098,9 @@ def run(ctx):
         'without the directly_assigned flag the stage adds after collecting; a direct call that FAILS is not required to '
         'clean up (the property promises that for mapping runs only)',
         'tempfile uniqueness under concurrency is assumed (the two-run acceptor checks the observed names are distinct)',
+        'an observation `Stat p answer` carries the KIND of the entry only (absent / file / directory / exists): the size, '
+        'times and inode a real stat() also returns (of a stale output, say) are not in the trace alphabet; the mapper does '
+        'not use them, and output digests are compared across histories',
         'paths are resolved paths without symbolic links (Model/FsModel.v header); the only symbolic-link case run is a '
         'requested output path that is a dangling link into another directory (history_symlink), checked on the snapshots '
         'alone (known finding F30)',
